@@ -488,10 +488,37 @@ class MapfileTransformer(Transformer):
             [str(v.value) for v in t]
         )  # convert to string for boolean expressions e.g. (true)
 
-        if not self.quoter.in_parenthesis(exp):
+        if not self.is_single_group(exp):
             t[0].value = f"({exp})"
 
         return t[0]
+
+    def is_single_group(self, exp: str) -> bool:
+        """
+        Check if the expression text is already wrapped in one pair of matching
+        parentheses e.g. "( [a] = 1 )", but not "([a] + 1) * ([b] + 2)"
+        """
+        exp = exp.strip()
+        if not (exp.startswith("(") and exp.endswith(")")):
+            return False
+
+        depth = 0
+        quote = None
+        for idx, ch in enumerate(exp):
+            if quote:
+                if ch == quote:
+                    quote = None
+            elif ch in ("'", '"', "`"):
+                quote = ch
+            elif ch == "(":
+                depth += 1
+            elif ch == ")":
+                depth -= 1
+                if depth == 0 and idx < len(exp) - 1:
+                    # the opening parenthesis is closed before the end
+                    return False
+
+        return True
 
     def add(self, t):
         assert len(t) == 2
